@@ -87,6 +87,11 @@ def make_tp(real=False):
         # exploration builds skip the TLS record layer (kept in --real builds)
         sub1(os.path.join(gd, "diam/client.go"), "srv.newConn(tls.Client(rw, config))", "srv.newConn(rw)")
         sub1(os.path.join(gd, "diam/server.go"), "tlsListener := tls.NewListener(conn, config)", "tlsListener := conn")
+    # modelled FTP client/server (CDR transfer): a replacement module, not a patched copy
+    fd = os.path.join(tp, "ftp")
+    os.makedirs(fd, exist_ok=True)
+    shutil.copy(os.path.join(VERIF, "patches/ftp.go"), os.path.join(fd, "ftp.go"))
+    open(os.path.join(fd, "go.mod"), "w").write("module github.com/jlaffaye/ftp\n\ngo 1.21\n")
     print("tp ready:", tp)
 
 
@@ -134,6 +139,7 @@ def make_overlay(repo, fine=False, real=False):
     mod = open(os.path.join(repo, "go.mod")).read()
     mod += "\nreplace github.com/free5gc/util => %s/util\n" % tp
     mod += "replace github.com/fiorix/go-diameter => %s/go-diameter\n" % tp
+    mod += "replace github.com/jlaffaye/ftp => %s/ftp\n" % tp
     mod += "require verif.local/vs v0.0.0\nreplace verif.local/vs => %s/vs\n" % VERIF
     open(os.path.join(BUILD, "alt%s.mod" % suffix), "w").write(mod)
     shutil.copy(os.path.join(repo, "go.sum"), os.path.join(BUILD, "alt%s.sum" % suffix))
@@ -157,6 +163,16 @@ def make_overlay(repo, fine=False, real=False):
                     os.makedirs(os.path.dirname(dst), exist_ok=True)
                     open(dst, "w").write(new)
                     repl[f] = dst
+    # the CDR transfer reads the subscriber's file from the same (modelled) file table the CDR writer uses
+    for f in go_files(repo, "internal/cgf"):
+        cur = repl.get(f, f)
+        src = open(cur).read()
+        if "os.ReadFile(" in src and '\t"os"\n' in src:
+            src = src.replace("os.ReadFile(", "vos.ReadFile(").replace('\t"os"\n', '\t"os"\n\tvos "verif.local/vs/vos"\n', 1)
+            dst = os.path.join(gen, "internal/cgf", os.path.basename(f))
+            os.makedirs(os.path.dirname(dst), exist_ok=True)
+            open(dst, "w").write(src)
+            repl[f] = dst
     if True:
         # statement-level scheduling points: instrument the (possibly already rewritten) file with tools/finepts
         tool = os.path.join(BUILD, "bin", "finepts")
